@@ -299,6 +299,11 @@ def run(ctx):
 
                 case["hist"] = gen_probe_history(r)
                 ctx.feat("feature:serialized-mid-history")
+            elif (i // 4) % 3 == 1:
+                from vf.gen.histories import gen_sparse_history
+
+                case["hist"] = gen_sparse_history(r)
+                ctx.feat("feature:sparse-survivors")
         if mode == "attr-rich":
             case["plant"] = c02.gen_plant(r, 4)
             if r.random() < 0.5:
